@@ -24,6 +24,7 @@ CLAUSE = CLAUSE + (" samples_pointer() advances a second-field row of a sequenti
 CLAUSE = CLAUSE + (" Every advance of the PES collecting cursor ts_pes_bp is paired, in the same step, with the countdown of ts_pes_todo by the same amount.")
 CLAUSE = CLAUSE + (" encode_timestamp and decode_timestamp shift each of the five PTS bytes by the same amount (same mask on byte "
                    "0); last_line follows only lines with a known position (s->line > 0).")
+CLAUSE = CLAUSE + (" The demultiplexer's own frame buffer takes every line address a frame can carry (line_offset mask x field parity).")
 NOT_DECIDED = ("PES/TS header layout, PTS encoding, size rounding to 184 and stuffing arithmetic, that demux (mux (x)) == x as values, "
                "conformance to EN 300 472 / EN 301 775 beyond the table.")
 
